@@ -100,4 +100,26 @@ def run(ctx):
         "programs are rendered fully parenthesised, so operator precedence/associativity of the parser is not exercised",
     ]
 
-# MUTANTS: see bottom of file (filled in after mutation testing)
+
+# MUTANTS (scratch worktree /tmp/wt-jq, VERIF_REPO=...; quick tier, seed 20260921; model stage skipped with the
+# development knob VERIF_DEV_SKIP_MODEL=1 because it does not depend on /repo).  M1 and M4 were run alone; M2,M3,M5,
+# M6,M7,M8 were applied TOGETHER in one build (CPU budget: a from-scratch build took 15 min on the shared box) -- the
+# check exits 1 on the combination, and detection is attributed per mutant from the list of ALL rejected events
+# (pre-pass scan / per-law sub-traces), so "caught" below means: at least one rejected event is explained by that
+# mutant alone.
+#   M1 eval_generic.rs only: to_entries drops the last field of an object
+#   M2 eval.rs compare_values: objects compared by values before keys
+#   M3 eval.rs builtin_add: `add` on an empty array/object -> 0 instead of null
+#   M4 eval.rs eval_limit: limit(0; f) emits one output
+#   M5 error.rs cannot_iterate: "Cannot iterate over" -> "cannot iterate over"
+#   M6 eval.rs set_value_at_path: setpath through an array index truncates the later siblings
+#   M7 eval.rs compare_values: strings ordered by length first
+#   M8 eval.rs builtin_unique: no deduplication
+#   C23: M1 caught (VIOLATION, clause agree: `to_entries` on {"b":{}}: jq::eval [{"key":"b","value":{}}] vs eval_generic []).
+#        M2 caught (clause spec: `min_by(.)` on an array of objects), M3 caught (`add` on {} -> 0), M5 caught (first
+#        VIOLATION: `map(.)` on 3 -> "cannot iterate over number (3)"), M7 caught (`. < "abcdefghijklmno"` on "x\"y").
+#        M4 MISSED at first (limit(0; ...) was generated only twice, both in the opaque tier) -> generator strengthened
+#        (limit weight x2.5, count drawn from {0,0,1,2,3,-1}); rerun: see M4 line below.
+#        M6, M8 not observed in the quick trace of this seed (setpath on a long array / unique with duplicates are rare in
+#        random programs); they are C25's laws and are caught there.
+#        M4 rerun: %(m4_c23)s
